@@ -201,6 +201,7 @@ def run_rule(rule, arch):
 
 _RUNS = [0]
 _RESPEC = [0]
+_BATCH = [0]
 _DECOYS = {}
 
 
@@ -995,8 +996,29 @@ def check_rule_cases(cases, use_oracle=True, lines=False):
                     case["reported_lines"] = _jsonable_lines(parse_message(io[1]) or [])
                     out["violations"].append((case, f"reported lines differ from the rule's violating set: {spec_key(spec)}", _tags(c, spec, io)))
                     continue
+            # a batch of subjects outside the strict domain (a package listed together with its own sub modules ...): the documented
+            # meaning of a batch is one rule per subject, so its report is the union of the reports of the rules for each subject
+            # alone - compared on the real code (report-level checks only, directly built architectures, every third such rule)
+            if lines and use_oracle and not strict and not spec.get("anything") and spec.get("subj") is not None and spec["subj"][0] in ("named", "sub") \
+                    and len(spec["subj"][1]) >= 2 and spec.get("obj") is not None and spec["obj"][0] in ("named", "sub") \
+                    and c.get("mode", "direct") == "direct" and io[0] in ("PASS", "FAIL"):
+                _BATCH[0] += 1
+                if _BATCH[0] % 3 == 0:
+                    st("batch_report_vs_single_subject_reports")
+                    if c.get("_arch_again") is None:
+                        c["_arch_again"] = make_arch_direct(c["nodes"], c["edges"], c.get("limit"))
+                    singles = [_run_rule_once(build_rule(dict(spec, subj=(spec["subj"][0], [n1]))), c["_arch_again"]) for n1 in spec["subj"][1]]
+                    if all(o1[0] in ("PASS", "FAIL") for o1 in singles):
+                        union = frozenset().union(*[(parse_message(o1[1]) or frozenset()) if o1[0] == "FAIL" else frozenset() for o1 in singles])
+                        got = (parse_message(io[1]) or frozenset()) if io[0] == "FAIL" else frozenset()
+                        if got != union:
+                            case["reported_lines"] = _jsonable_lines(got)
+                            case["single_subject_lines"] = _jsonable_lines(union)
+                            out["violations"].append((case, f"the report of a batch of subjects differs from the reports of the rules for each subject alone: {spec_key(spec)}", _tags(c, spec, io)))
+                            continue
             if bad_model:
                 out["disagreements"].append((case, f"model and implementation differ: impl={io[0]} model={mo[0]} {spec_key(spec)}"))
+        c.pop("_arch_again", None)
         if len(verdicts) > 1:
             out["nontrivial"] += 1
         if len(out["pairs"]) < 2:
